@@ -36,6 +36,7 @@ typedef struct {
 
 	size_t padding;
 	bool last_sparse;
+	bool is_wrapped;
 } tar_iterator_t;
 
 typedef struct {
@@ -168,6 +169,29 @@ static void strm_destroy(sqfs_object_t *obj)
 
 /*****************************************************************************/
 
+/* After the end-of-archive marker, a decompressing stream still holds the
+   rest of its input: trailing padding and the check sums of the compressed
+   format. Read it to the end, so a damaged or truncated stream is noticed
+   even if the marker was the last thing decoded so far. */
+static int drain_stream(sqfs_istream_t *strm)
+{
+	const sqfs_u8 *ptr;
+	size_t size;
+	int ret;
+
+	for (;;) {
+		ret = strm->get_buffered_data(strm, &ptr, &size, 1);
+		if (ret < 0)
+			return ret;
+		if (ret > 0)
+			break;
+
+		strm->advance_buffer(strm, size);
+	}
+
+	return 0;
+}
+
 static int it_next(sqfs_dir_iterator_t *it, sqfs_dir_entry_t **out)
 {
 	tar_iterator_t *tar = (tar_iterator_t *)it;
@@ -240,6 +264,12 @@ retry:
 
 	return 0;
 fail:
+	if (ret > 0 && tar->is_wrapped) {
+		int err = drain_stream(tar->stream);
+		if (err < 0)
+			ret = err;
+	}
+
 	tar->state = ret < 0 ? ret : 1;
 	return tar->state;
 }
@@ -424,6 +454,7 @@ sqfs_dir_iterator_t *tar_open_stream(sqfs_istream_t *strm,
 		return NULL;
 	}
 
+	tar->is_wrapped = true;
 	return it;
 out_strm:
 	tar->stream = sqfs_grab(strm);
